@@ -4,5 +4,5 @@ CONSTANTS N, K1, K2, K3
 ThreadsDef == 1..N
 KindDef == [t \in 1..N |-> IF t = 1 THEN K1 ELSE IF t = 2 THEN K2 ELSE K3]
 \* every complete schedule is printed once, when all calls are done
-Emit == AllDone => PrintT(<<"CASE", ToJson([kinds |-> KindDef, sched |-> sched])>>)
+Emit == (Settled /\ toPeer = <<>>) => PrintT(<<"CASE", ToJson([kinds |-> KindDef, sched |-> sched])>>)
 =============================================================================
